@@ -179,6 +179,41 @@ theorem filterTxOutStep_no_retd (P : Prog) (O : Oracle) (n : Nat) (σ : State)
       · exact site_retd h6
       · exact skip_retd h6
 
+/-- a loop whose body never returns never returns (any budget, any iteration count) -/
+theorem iter_retd {P : Prog} {O : Oracle} {i cnt : Var} {body : Stmt}
+    (hbody : ∀ n σ τ, run P O n body σ ≠ .ok (.retd τ)) :
+    ∀ (n k : Nat) (σ τ : State), run P O n (.iter i cnt k body) σ ≠ .ok (.retd τ) := by
+  intro n
+  induction n with
+  | zero => intro k σ τ h; simp [run] at h
+  | succ n ih =>
+    intro k σ τ h
+    rw [run] at h
+    by_cases hk : k < σ cnt
+    · cases hb : run P O n body (σ.set i k) with
+      | error e => simp [hk, hb] at h
+      | ok fl =>
+        cases fl with
+        | norm σ' => simp only [hk, if_true, hb] at h; exact ih _ _ _ h
+        | retd σ' => exact hbody _ _ _ hb
+    · simp [hk] at h
+
+theorem loop_retd {P : Prog} {O : Oracle} {i cnt : Var} {inv : List Atom} {body : Stmt}
+    (hbody : ∀ n σ τ, run P O n body σ ≠ .ok (.retd τ)) (n : Nat) (σ τ : State) :
+    run P O n (.loop i cnt inv body) σ ≠ .ok (.retd τ) := by
+  cases n with
+  | zero => intro h; simp [run] at h
+  | succ n =>
+    rw [run]
+    exact iter_retd hbody n 0 σ τ
+
+/-- the whole output loop of filterTx (`for … range tx.TxOut`), any number of outputs: it is never left by `return` -/
+theorem filterTxOutLoop_no_retd (P : Prog) (O : Oracle) (n : Nat) (σ : State) (inv : List Atom)
+    (hparse : ∀ σ, (O "utils.ParsePkScript" σ).getD 1 0 = 0 ∨ (O "utils.ParsePkScript" σ).getD 2 0 ≠ 0)
+    (hks : ∀ τ, (O "w.ksmgr.GetManagedAddressByScriptHash" τ).getD 1 0 = 0) (τ : State) :
+    run P O n (.loop "ft.o" "tx.TxOut" inv filterTxOutStep) σ ≠ .ok (.retd τ) :=
+  loop_retd (fun n σ τ => filterTxOutStep_no_retd P O n σ hparse hks τ) n σ τ
+
 /-- witness oracle for the non-vacuity examples of MW.Props.C19.no_stall_full (SUPPORTED-script branch):
     ParsePkScript answers ps = 1, pserr = 0; the keystore lookup answers ma = 1, merr = 0 -/
 def supportedOracle : Oracle := fun f _ =>
